@@ -25,7 +25,7 @@ SHARD_TIMEOUT = {"quick": 120, "thorough": 2400}
 
 SHAPES = ["close_local", "close_remote", "end_of_exec", "drop_local", "drop_remote", "error", "callback", "callback_drop",
           "remote_status", "nested_transfer", "exec_error", "reply_channel_both_dropped", "callback_then_local_close",
-          "exec_sets_callback_on_own_channel", "both_callbacks_peer_drops_first"]
+          "exec_sets_callback_on_own_channel", "both_callbacks_peer_drops_first", "callback_channel_sent_back"]
 
 
 def shards(tier, seed):
@@ -404,6 +404,28 @@ def one_cycle(res, lab, rng, shape, n):
         pairs.wait_until(lambda: "end" in rgot, 15.0)
         if lgot != ["end"] or rgot != [("still", n), "end"]:
             res.violation("sendonly-conversation-transcript-wrong", f"cycle {n}: first dropper saw {rgot!r}, second dropper saw {lgot!r}")
+    elif shape == "callback_channel_sent_back":
+        # a conversation whose local end has only its callback left; the peer then passes this very channel back inside an
+        # item of another channel (a second object for the same conversation appears here): the callback stays the receiver
+        from vlib import pairs
+
+        got = []
+        lc, rc = lab.pair_newchannel_local()
+        lc.setcallback(got.append, endmarker="end")
+        del lc
+        gc.collect()
+        rc.send(1)
+        pairs.wait_until(lambda: got == [1], 15.0)
+        lab.control_remote.send({"again": rc})
+        again = lab.control_local.receive(10)["again"]
+        rc.send(2)
+        rc.send(3)
+        rc.close()
+        pairs.wait_until(lambda: "end" in got, 15.0)
+        if got != [1, 2, 3, "end"] or again.id != rc.id:
+            res.violation("callback-lost-items-to-a-second-object-of-its-channel", f"cycle {n}: callback saw {got!r}")
+        del again
+        gc.collect()
     elif shape == "exec_sets_callback_on_own_channel":
         ch = gw.remote_exec("seen = []\nchannel.setcallback(seen.append, endmarker=None)\nchannel.send('ready')")
         assert ch.receive(10) == "ready"
